@@ -4,10 +4,10 @@
 P=$1; D=$2; K=$3; TIER=${4:-quick}
 cd /repo && { [ -d /tmp/lead_mut_tree ] || git worktree add -q --detach /tmp/lead_mut_tree HEAD; }
 cd /tmp/lead_mut_tree && git checkout -q -- . ; git clean -fdq; git checkout -q --detach main
-echo "== demo on clean tree:"; PYTHONPATH=/tmp/lead_mut_tree/src /venv/bin/python $D/$K/demo.py > /tmp/t1/demo_clean.out 2>&1; echo "exit $?"
+echo "== demo on clean tree:"; PYTHONPATH=/tmp/lead_mut_tree/src /venv/bin/python $D/$K/demo.py > /root/scratch/demo_clean.out 2>&1; echo "exit $?"
 git apply $D/$K/patch.diff || { echo "PATCH DOES NOT APPLY"; exit 3; }
 echo "== baseline with change:"; python3 /verif/tools/baseline_check.py /tmp/lead_mut_tree
-echo "== demo with change:"; PYTHONPATH=/tmp/lead_mut_tree/src /venv/bin/python $D/$K/demo.py > /tmp/t1/demo_mut.out 2>&1; echo "exit $?"
+echo "== demo with change:"; PYTHONPATH=/tmp/lead_mut_tree/src /venv/bin/python $D/$K/demo.py > /root/scratch/demo_mut.out 2>&1; echo "exit $?"
 echo "== check $P ($TIER) against the change:"
 cd /verif && VERIF_REPO=/tmp/lead_mut_tree ./check $P --tier $TIER --keep 2>&1 | grep -v '^"{' | grep "VIOLATION\|KNOWN\|$P $TIER\|MACHINERY" | cut -c1-200 | tail -6
 cd /tmp/lead_mut_tree && git checkout -q -- . && git clean -fdq
